@@ -319,4 +319,4 @@ def run(ctx):
              for extra in ({"stale": "timeout"}, {"stale": "cancel"}, {"giveup": 2.0}, {"giveup": 5.0, "stale": "cancel"})]
     ctx.parallel(_worker_enum, jobs)
     ctx.exhaustive["every wire event x before/after x 8 failure kinds for the listed workloads and versions"] = True
-    ctx.parallel(_worker, [60] * 16 if quick else [5000] * 16)
+    ctx.parallel(_worker, [300] * 16 if quick else [5000] * 16)
